@@ -82,44 +82,51 @@ def valid_bases(name, mod, n, rnd, synth):
                     out.append(u)
                     break
     # neighbours of the digit strings the module's source mentions (special prefixes such as the SIREN of La Poste): numbers that
-    # share all but the last one or two digits of such a literal, completed to a valid number by searching one inner position
-    # and the last character -- where a special case that was widened or narrowed by a digit shows
+    # share all but the last one or two digits of such a literal, continue it, or carry it one or two places further right,
+    # completed to a valid number by searching one inner position and the last character -- where a special case that was
+    # widened, narrowed or loosened from "starts with" to "contains" shows
+    def complete(t, fixed):
+        for j in range(fixed, len(t) - 1):
+            for dj in '0123456789':
+                for dl in '0123456789':
+                    u = t[:j] + dj + t[j + 1:-1] + dl
+                    if u in seen:
+                        continue
+                    try:
+                        if mod.is_valid(u) is True and mod.validate(u) == u:
+                            return u
+                    except Exception:
+                        pass
+        return None
     found = 0
     for b in bases[:1]:
         if not (b.isascii() and b.isdigit()):
             continue
         for L in inputs.literals(mod, minlen=4, maxlen=max(4, len(b) - 1), cap=40):
-            if not L.isdigit() or found >= 9:
+            if not L.isdigit() or found >= 12:
                 continue
-            for k in (len(L), len(L) - 1, len(L) - 2):        # the literal itself continued by each digit, and its neighbours
+            templates = []
+            for k in (len(L), len(L) - 1, len(L) - 2):
                 for d in '0123456789':
                     pre = L[:k] + d
                     if (k < len(L) and L.startswith(pre)) or len(pre) >= len(b):
                         continue
-                    t = pre + b[len(pre):]
-                    hit = None
-                    for j in range(len(pre), len(t) - 1):
-                        for dj in '0123456789':
-                            for dl in '0123456789':
-                                u = t[:j] + dj + t[j + 1:-1] + dl
-                                if u in seen:
-                                    continue
-                                try:
-                                    if mod.is_valid(u) is True and mod.validate(u) == u:
-                                        hit = u
-                                        break
-                                except Exception:
-                                    pass
-                            if hit:
-                                break
-                        if hit:
-                            break
-                    if hit:
-                        seen.add(hit)
-                        out.append(hit)
-                        found += 1
-                        if k < len(L) or d == '3':          # continuations of the literal itself: several next digits
-                            break
+                    templates.append((pre + b[len(pre):], len(pre), k < len(L) or d == '3'))
+            for off in (1, 2):
+                if off + len(L) < len(b) - 1:
+                    for lead in ('0123456789' if off == 1 else ['%02d' % q for q in range(0, 100, 7)]):
+                        templates.append((lead + L + b[off + len(L):], 1000 + off + len(L), lead == '9'))
+            stop_k = None
+            for t, fixed, last_of_group in templates:
+                if stop_k == fixed:
+                    continue
+                hit = complete(t, fixed % 1000)
+                if hit:
+                    seen.add(hit)
+                    out.append(hit)
+                    found += 1
+                    if last_of_group:
+                        stop_k = fixed
     return out
 
 
